@@ -533,6 +533,12 @@ package server
 //@   safety
 //@   call panic requires [only-for-a-response-that-cannot-be-marshaled] err != nil
 
+// The CLIENT of the (client, resource, action) triple (C15): the identity the handlers hand to the enforcer is the common
+// name of the verified client certificate exactly as it stands there - not folded, trimmed or otherwise normalised, which
+// would let "Client1" or "client1 " act with client1's grants although the policy has no entry for them
+//@ func addUserContext serves C15
+//@   call WithValue requires [the-client-identity-is-the-certificate's-common-name-as-it-stands] arg2 == boxed(tlsInfo.State.VerifiedChains[0][0].Subject.CommonName)
+
 // ---------------------------------------------------------------------------------------------
 // One active group subscription per partition (property C13)
 //
